@@ -39,6 +39,8 @@ pub enum Act {
     PreCommit(u64),
     /// prove-commit a pre-committed sector (deposit released, pledge locked); bad = invalid proof
     ProveCommit(u64, bool),
+    /// the same pre-committed sector named twice in one prove-commit batch
+    ProveCommitTwice(u64),
     /// a stranger reports a consensus fault committed by the miner at the previous epoch
     ReportFault,
     RepayDebt,
@@ -506,7 +508,7 @@ impl Life {
         };
         match name {
             // {1,2} and {3} in two partitions of one deadline
-            "one-deadline" | "one-deadline-aged" | "one-deadline-aged-debt" | "one-deadline-aged-f12" => {
+            "one-deadline" | "one-deadline-aged" | "one-deadline-aged-debt" | "one-deadline-aged-f12" | "one-deadline-aged-pc" => {
                 commit(&[1, 2, 3], d0, now + 80);
             }
             // proven sectors whose latest PoSt carried an invalid proof; its deadline has just closed
@@ -575,6 +577,13 @@ impl Life {
         if name.contains("-aged") || name.contains("-faulty") {
             // two proving periods: the first proven by default; under "-faulty" the second unproven
             for step in 0..48 {
+                if name.ends_with("-pc") && step == 45 {
+                    // an outstanding pre-commitment (deposit locked), provable when the base is reached
+                    let exp = min_precommit_expiration(&vm.policy, vm.epoch()) + 10;
+                    let r = precommit(vm, cast.w, cast.m, 5, exp);
+                    assert!(r.ok(), "SETUP-FAILED pre-commit: {}", r.tree());
+                    m.ever.insert(5);
+                }
                 let v = view(vm, cast.m).unwrap();
                 let prove = step < 24 || !name.contains("-faulty");
                 if prove && v.dl_info.open == vm.epoch() {
@@ -671,6 +680,7 @@ impl Scenario for Life {
             Act::DeclareFaultsWrongPartition(_) => "declare-faults(wrong partition)".into(),
             Act::PreCommit(_) => "pre-commit".into(),
             Act::ProveCommit(_, bad) => format!("prove-commit bad={bad}"),
+            Act::ProveCommitTwice(_) => "prove-commit (sector named twice)".into(),
             Act::ReportFault => "report-consensus-fault".into(),
             Act::RepayDebt => "repay-debt".into(),
             Act::Withdraw => "withdraw".into(),
@@ -723,6 +733,7 @@ impl Scenario for Life {
             for n in mv.precommits.keys() {
                 v.push(Act::ProveCommit(*n, false));
                 v.push(Act::ProveCommit(*n, true));
+                v.push(Act::ProveCommitTwice(*n));
             }
         }
         if self.cfg.money_devs {
@@ -1075,8 +1086,11 @@ impl Scenario for Life {
                     outcome = "rejected";
                 }
             }
-            Act::ProveCommit(number, badproof) => {
-                let r = prove_commit3(vm, c.w, c.m, &[*number], *badproof);
+            Act::ProveCommit(number, _) | Act::ProveCommitTwice(number) => {
+                let twice = matches!(a, Act::ProveCommitTwice(_));
+                let badproof = &matches!(a, Act::ProveCommit(_, true));
+                let nums: Vec<u64> = if twice { vec![*number, *number] } else { vec![*number] };
+                let r = prove_commit3(vm, c.w, c.m, &nums, *badproof);
                 if let Err(e) = all_ok(&r) {
                     bad!(e);
                 }
